@@ -75,7 +75,9 @@ func c08(c *ctx) {
 		"p.N = 0X1F + 0B11 + 0O17", "f := 1E3 + 0XAP1; _ = f"}
 	preds := []string{"true", "p.N >= 0 /* {} */", "len(\"*/\") == 2", "func() bool { return true }()", "!false && (true)",
 		// predicates written over several lines, ending in a newline, or carrying line comments
-		"\n  p.N >= 0\n", "p.N >= 0 // never negative\n", "p.N >= 0 && // first\n  true /* second */\n", "true // to the end of the text", "len(\"//\") == 2"}
+		"\n  p.N >= 0\n", "p.N >= 0 // never negative\n", "p.N >= 0 && // first\n  true /* second */\n", "true // to the end of the text", "len(\"//\") == 2",
+		// predicates that BEGIN with a comment (the first repair of F27 wrapped the text as "return <text>")
+		"// first a comment\n  p.N >= 0", "/* a\n block */ p.N >= 0 // and a line comment\n", "/* only a block comment */ p.N >= 0"}
 	for i := 0; i < n; i++ {
 		var g *gram.Grammar
 		kind := "profile-mix"
